@@ -17,13 +17,9 @@ def prep_slot(k):
     d = f'{ROOT}/slot{k}'
     os.makedirs(d, exist_ok=True)
     sh(f'rsync -a --delete --exclude target --exclude .git /repo/ {d}/repo/')
-    sh(f'rsync -a --delete --exclude target /verif/harness/ {d}/harness/')
-    sh(f'rsync -a --delete --exclude target /verif/harness-serde/ {d}/harness-serde/')
-    sh(f"grep -rl '\"/repo\"' {d}/harness {d}/harness-serde --include=Cargo.toml | xargs sed -i 's#\"/repo\"#\"{d}/repo\"#'")
-    sh(f"sed -i 's#../../harness/runner/src/json.rs#../../harness/runner/src/json.rs#' {d}/harness-serde/src/main.rs")
-    os.makedirs(f'{d}/verif', exist_ok=True)
-    for sub in ('corpus', 'known_findings.jsonl'):
-        sh(f'rsync -a --delete /verif/{sub} {d}/verif/')
+    # a complete scratch copy of /verif whose harness points at the scratch repo
+    sh(f"rsync -a --delete --exclude target --exclude .git --exclude work --exclude replays --exclude evidence --exclude 'mutants/results*' /verif/ {d}/verif/")
+    sh(f"grep -rl '\"/repo\"' {d}/verif/harness {d}/verif/harness-serde --include=Cargo.toml | xargs sed -i 's#\"/repo\"#\"{d}/repo\"#'")
     return d
 
 def run_mutant(m, d, props, scale):
@@ -34,30 +30,17 @@ def run_mutant(m, d, props, scale):
     if s.count(m['old']) != 1:
         res['status'] = 'anchor-missing'; return res
     open(f, 'w').write(s.replace(m['old'], m['new']))
-    rc, out = sh('git diff --no-index --stat /dev/null /dev/null; true')
-    # pinned suite (shared target dir for the dev-dependencies)
     env = dict(ENV, CARGO_TARGET_DIR=f'{d}/repo-target')
     rc, out = sh('cargo test --offline --lib 2>&1 | tail -n 30', cwd=f'{d}/repo', env=env)
     if 'test result: ok' not in out:
-        res['status'] = 'compile-error' if 'error' in out and 'test result' not in out else 'killed-by-pinned-suite'
+        res['status'] = 'compile-error' if 'test result' not in out else 'killed-by-pinned-suite'
         res['detail'] = out[-600:]
         return res
-    env = dict(ENV, VERIF_DIR=f'{d}/verif', VERIF_SCALE=str(scale))
-    rc, out = sh('cargo build --release -p runner 2>&1 | tail -n 20', cwd=f'{d}/harness', env=env)
-    if rc != 0 or 'error' in out:
-        res['status'] = 'harness-build-error'; res['detail'] = out[-800:]; return res
-    need_dev = any(p in ('C01', 'C03', 'C05', 'C18') for p in props)
-    if need_dev:
-        rc, out = sh('cargo build -p runner 2>&1 | tail -n 20', cwd=f'{d}/harness', env=env)
+    env = dict(ENV, VERIF_SCALE=str(scale))
+    env.pop('VERIF_DIR', None)
     fired, incon, details = [], [], {}
     for p in props:
-        if p == 'C20':
-            rc, out = sh('cargo build --release 2>&1 | tail -n 5', cwd=f'{d}/harness-serde', env=env)
-            rc, out = sh(f'{d}/harness-serde/target/release/serdechk quick', env=env, timeout=1200)
-        else:
-            rc, out = sh(f'{d}/harness/target/release/runner {p} quick', env=env, timeout=1800)
-            if rc == 0 and p in ('C01', 'C03', 'C05', 'C18'):
-                rc, out = sh(f'{d}/harness/target/debug/runner {p} quick', env=env, timeout=1800)
+        rc, out = sh(f'{d}/verif/check {p} quick', env=env, timeout=3000)
         if rc == 1 and 'VIOLATION' in out:
             fired.append(p)
             v = [l for l in out.splitlines() if l.startswith('violated:')]
